@@ -122,6 +122,10 @@ pub struct WorkerOutput {
     pub realtime_reads: u64,
     pub formatter_spawns: u64,
     pub unreaped_children: u64,
+    /// threads created by the code under test inside its calls (helper threads of a change);
+    /// they are not under the scheduler's control
+    #[serde(default)]
+    pub helper_threads: u64,
     #[serde(default)]
     pub alloc_points: u64,
     #[serde(default)]
@@ -141,6 +145,8 @@ struct C18Backend {
     formatter_fault_in_this_call: std::sync::atomic::AtomicBool,
     fmt: FmtPlan,
     children: Mutex<Vec<Arc<SimChild>>>,
+    /// the simulated thread this backend belongs to
+    owner: std::thread::ThreadId,
 }
 
 impl Backend for C18Backend {
@@ -161,6 +167,7 @@ impl Backend for C18Backend {
         let sched = self.sched.clone();
         let tid = self.tid;
         let tick_ns = self.tick_ns;
+        let owner = self.owner;
         self.sched.point(self.tid, "seam:spawn");
         let nth = self.spawn_count.fetch_add(1, Ordering::Relaxed) + 1;
         if self.failing_spawns.contains(&nth) {
@@ -173,6 +180,12 @@ impl Backend for C18Backend {
                 spec,
                 Arc::new(String::new()),
                 Some(Box::new(move |site| {
+                    // A helper thread of the code under test (one that feeds or drains the
+                    // formatter) is not a simulated thread: it runs freely, only the thread that
+                    // made the call takes scheduling points.
+                    if std::thread::current().id() != owner {
+                        return;
+                    }
                     seams::advance_thread_clock(tick_ns);
                     sched.point(tid, site)
                 })),
@@ -255,6 +268,7 @@ fn run_process(input: &WorkerInput) -> WorkerOutput {
     let results = Arc::new(Mutex::new(Vec::<JobResult>::new()));
     let spawns = Arc::new(AtomicU64::new(0));
     let unreaped = Arc::new(AtomicU64::new(0));
+    let helper_threads = Arc::new(AtomicU64::new(0));
     let return_all = input.return_all_outcomes;
 
     let mut handles = Vec::new();
@@ -269,6 +283,7 @@ fn run_process(input: &WorkerInput) -> WorkerOutput {
         let tick_ns = p.tick_ns;
         let spawns = spawns.clone();
         let unreaped = unreaped.clone();
+        let helper_threads = helper_threads.clone();
         let handle = std::thread::Builder::new()
             .stack_size(16 << 20)
             .spawn(move || {
@@ -294,6 +309,7 @@ fn run_process(input: &WorkerInput) -> WorkerOutput {
                     formatter_fault_in_this_call: std::sync::atomic::AtomicBool::new(false),
                     fmt,
                     children: Mutex::new(Vec::new()),
+                    owner: std::thread::current().id(),
                 });
                 verif_hooks::install(Some(backend.clone() as Arc<dyn Backend>));
                 let body = std::panic::catch_unwind(std::panic::AssertUnwindSafe(|| {
@@ -356,6 +372,7 @@ fn run_process(input: &WorkerInput) -> WorkerOutput {
                 seams::set_sleep_hook(None);
                 seams::set_alloc_hook(0, None);
                 sched.thread_done(tid);
+                helper_threads.fetch_add(seams::threads_created_by_current_thread(), Ordering::Relaxed);
                 let children = backend.children.lock().unwrap();
                 spawns.fetch_add(children.len() as u64, Ordering::Relaxed);
                 for c in children.iter() {
@@ -444,6 +461,7 @@ fn run_process(input: &WorkerInput) -> WorkerOutput {
         realtime_reads: seams::REALTIME_READS.load(Ordering::Relaxed),
         formatter_spawns: spawns.load(Ordering::Relaxed),
         unreaped_children: unreaped.load(Ordering::Relaxed),
+        helper_threads: helper_threads.load(Ordering::Relaxed),
         alloc_points: seams::ALLOC_POINTS.load(Ordering::Relaxed),
         virtual_sleeps: seams::VIRTUAL_SLEEPS.load(Ordering::Relaxed),
         log: report.log,
@@ -670,10 +688,35 @@ const ENV_MENU: &[(&str, &[&str])] = &[
 
 pub fn gen_plan(rng: &mut Rng) -> RunPlan {
     let menu = option_menu();
-    let pool_size = rng.usize(2, 8);
-    let mut pool = Vec::new();
-    for _ in 0..pool_size {
-        let shader = match rng.below(20) {
+    // 5 % of the runs are a stress run (see below); 3 % are a long history: one process, one or
+    // two threads, a hundred or more calls each over two or three dozen different inputs - what
+    // depends on how many calls or how many different inputs a process has seen (periodic
+    // maintenance, a counter that wraps, a bounded cache that evicts) does not show in the first
+    // handful.
+    let stress = rng.chance(50) || std::env::var_os("VERIF_C18_STRESS_ONLY").is_some();
+    let long = !stress && (rng.chance(30) || std::env::var_os("VERIF_C18_LONG_ONLY").is_some());
+    let pool_size = if long { rng.usize(18, 48) } else { rng.usize(2, 8) };
+    let mut pool: Vec<Job> = Vec::new();
+    while pool.len() < pool_size {
+        let shader = match rng.below(22) {
+            20..=21 => {
+                // a litter of siblings: same declarations, names and sizes, different leaf types
+                let seed = rng.below(40);
+                let options = *rng.pick(&menu);
+                let first = rng.below(3) as u32;
+                for k in 0..rng.usize(1, 3) as u32 {
+                    pool.push(Job {
+                        shader: ShaderRef::Sibling {
+                            seed,
+                            variant: if k == 0 { first } else if rng.chance(500) { (first + k) % 3 } else { rng.range(3, 40) as u32 },
+                        },
+                        include_path: None,
+                        // mostly the same options, so that only the leaf types differ
+                        options: if rng.chance(700) { options } else { *rng.pick(&menu) },
+                    });
+                }
+                ShaderRef::Sibling { seed, variant: (first + 1) % 3 }
+            }
             0..=8 => ShaderRef::Repo {
                 path: rng.pick(corpus::REPO_SHADERS).to_string(),
             },
@@ -706,12 +749,11 @@ pub fn gen_plan(rng: &mut Rng) -> RunPlan {
             options: *rng.pick(&menu),
         });
     }
-    // 5 % of the runs are a stress run: one process, twelve free-running threads, each calling its
+    // A stress run: one process, twelve free-running threads, each calling its
     // own twin of one small shader forty times. Twins cost exactly the same, so the threads stay in
     // lockstep and reach every point of the library at the same instant again and again -
     // uncontrolled and not replayable (see Policy::Free), but the only way to reach races whose
     // window is a couple of machine instructions.
-    let stress = rng.chance(50) || std::env::var_os("VERIF_C18_STRESS_ONLY").is_some();
     if stress {
         let seed = rng.below(48);
         let options = *rng.pick(&menu[..8]);
@@ -726,7 +768,14 @@ pub fn gen_plan(rng: &mut Rng) -> RunPlan {
             })
             .collect();
     }
-    let n_proc = if stress {
+    if long {
+        for job in pool.iter_mut() {
+            if let ShaderRef::Gen { scale, .. } = &mut job.shader {
+                *scale = (*scale).min(3);
+            }
+        }
+    }
+    let n_proc = if stress || long {
         1
     } else {
         match rng.below(10) {
@@ -737,7 +786,13 @@ pub fn gen_plan(rng: &mut Rng) -> RunPlan {
     };
     let mut processes = Vec::new();
     for _ in 0..n_proc {
-        let n_threads = if stress { 12 } else { rng.usize(1, 6) };
+        let n_threads = if stress {
+            12
+        } else if long {
+            rng.usize(1, 2)
+        } else {
+            rng.usize(1, 6)
+        };
         // scheduling points at heap allocations: off, sparse, dense (per process)
         let alloc_every = *rng.pick(&[0u64, 0, 0, 997, 211, 37]);
         let threads: Vec<ThreadPlan> = (0..n_threads)
@@ -756,6 +811,8 @@ pub fn gen_plan(rng: &mut Rng) -> RunPlan {
         for (t, thread) in threads.iter_mut().enumerate() {
             thread.jobs = if stress {
                 vec![t % pool.len(); 40]
+            } else if long {
+                (0..rng.usize(70, 280)).map(|_| rng.usize(0, pool.len() - 1)).collect()
             } else {
                 (0..rng.usize(1, 6)).map(|_| rng.usize(0, pool.len() - 1)).collect()
             };
@@ -860,6 +917,9 @@ pub struct RunStats {
     pub realtime_reads: u64,
     pub formatter_spawns: u64,
     pub unreaped_children: u64,
+    /// threads created by the code under test inside its calls (helper threads of a change);
+    /// they are not under the scheduler's control
+    pub helper_threads: u64,
     pub alloc_points: u64,
     pub virtual_sleeps: u64,
     pub same_job_on_two_threads: u64,
@@ -937,6 +997,7 @@ fn execute(scratch: &Scratch, golden: &Golden, plan: &RunPlan, record: bool) -> 
         stats.realtime_reads += out.realtime_reads;
         stats.formatter_spawns += out.formatter_spawns;
         stats.unreaped_children += out.unreaped_children;
+        stats.helper_threads += out.helper_threads;
         stats.alloc_points += out.alloc_points;
         stats.virtual_sleeps += out.virtual_sleeps;
         if process.env.len() != canonical_env().len() || process.env != canonical_env() {
@@ -1261,6 +1322,7 @@ fn add_stats(a: &mut RunStats, b: &RunStats) {
     a.realtime_reads += b.realtime_reads;
     a.formatter_spawns += b.formatter_spawns;
     a.unreaped_children += b.unreaped_children;
+    a.helper_threads += b.helper_threads;
     a.alloc_points += b.alloc_points;
     a.virtual_sleeps += b.virtual_sleeps;
     a.same_job_on_two_threads += b.same_job_on_two_threads;
@@ -1438,6 +1500,8 @@ pub fn main(tier: Tier) -> i32 {
                     && b.divergences.is_empty()
                     && a.stats.stall_handoffs == 0
                     && b.stats.stall_handoffs == 0
+                    && a.stats.helper_threads == 0
+                    && b.stats.helper_threads == 0
                 {
                     eprintln!("HARNESS-ERROR determinism self-check: run {} gave two different event logs", (k * 13) % n.max(1));
                     return 2;
@@ -1548,6 +1612,7 @@ pub fn main(tier: Tier) -> i32 {
         "outcome_classes_compared": {"ok": s.ok_outcomes, "err": s.err_outcomes, "panic": s.panic_outcomes},
         "realtime_clock_reads_in_workers": s.realtime_reads,
         "formatter_children_not_reaped": s.unreaped_children,
+        "helper_threads_created_by_the_code_under_test_uncontrolled": s.helper_threads,
         "stall_handoffs_baton_holder_blocked_outside_seams": s.stall_handoffs,
         "determinism_pairs_checked": det_n,
         "known_findings_hit": known_hits,
